@@ -1,26 +1,39 @@
 """C20 - world and oracle for the app monitor.
 
-The code under test is the real `treadmill.sproc.appmonitor.reevaluate`.
-Around it the harness mirrors only the glue of `_run_sync` that cannot be
-driven here (kazoo watch decorators, `exit_on_unhandled`, an endless loop):
+The code under test is the real `treadmill.sproc.appmonitor`: `reevaluate`
+AND the watch glue of `_run_sync` that builds the state it works on.  Every
+world calls the real `_run_sync(api, alerts_dir, once=True)` against a tiny
+in-memory ZooKeeper client whose `ChildrenWatch` decorator captures the real
+nested callbacks (`_scheduled_watch`, `_appmonitors_watch`) and on which the
+real `zkwatchers.ExistingDataWatch` registers the real `_monitor_data_watch`;
+`reevaluate` is swapped for a capturing stub during that one call so that the
+closure's `state` dict (and the `last_waited` read by the real
+`masterapi.get_suspended_appmonitors`) end up in the harness, `time.sleep` is a
+no-op.  Afterwards
 
-* `_scheduled_watch`  -> `state['scheduled']` = sorted children grouped by app,
-* `_monitor_data_watch` -> `state['monitors'][name]` = fresh bucket,
-* `_appmonitors_watch` -> monitors that disappeared are popped.
+* the scheduled view is refreshed by calling the real `_scheduled_watch` with
+  the children of /scheduled in the order the event says (sorted, reversed,
+  interleaved - ZooKeeper returns children in no particular order),
+* a monitor is created / reconfigured / deleted by writing the tiny ZooKeeper
+  and delivering the data / children watch events to the real callbacks,
+* `reevaluate` (the real one) is called with the captured `state`.
 
-Fakes: `restclient.post` (records the request, answers as the event says),
-`zkutils.update` (records what would be written), `alert_f` (records), the
-virtual clock.  The oracle is a continuous-time token bucket per monitor
-(capacity 2*count, refill 2*count per hour, decremented by successful
-creations only, reset when the monitor is (re)configured) plus the clauses of
-the property statement; it never reads the implementation's bucket except for
-the "never negative" clause.
+Nothing of the glue is mirrored any more.  Fakes: `restclient.post` (records
+the request, answers as the event says), `zkutils.update` (records and stores
+what is written), `alert_f` (records), `utils.sys_exit` (raises instead of
+killing the worker), the virtual clock.  The oracle is a continuous-time token
+bucket per monitor (capacity 2*count, refill 2*count per hour, decremented by
+successful creations only, reset when the monitor is (re)configured) plus the
+clauses of the property statement; instance age is the harness's own creation
+order, never the implementation's grouping.
 """
 import collections
 import copy
-import itertools
+import json
 import logging
 import math
+import threading
+import types
 
 logging.disable(logging.CRITICAL)
 
@@ -29,8 +42,105 @@ from mc.vclock import CLOCK, BASE, TAU, logical  # noqa: E402
 
 vclock.install()
 
+import kazoo.exceptions  # noqa: E402
+
 from treadmill.sproc import appmonitor as am  # noqa: E402
 from treadmill import restclient  # noqa: E402
+from treadmill import utils as tm_utils  # noqa: E402
+from treadmill import zknamespace as z  # noqa: E402
+
+_REAL_REEVALUATE = am.reevaluate
+# the module-level name `time` inside appmonitor: virtual clock, no sleeping
+am.time = types.SimpleNamespace(time=CLOCK.time, sleep=lambda _s: None)
+
+SCHEDULED = z.path.scheduled()
+APPMON = z.path.appmonitor()
+ORDERS = ('sorted', 'reversed', 'interleaved')
+
+
+class GlueCrashed(Exception):
+    """utils.exit_on_unhandled would have killed the monitor process."""
+
+
+def _no_exit(code=0):
+    raise GlueCrashed('exit_on_unhandled -> sys_exit(%r)' % (code,))
+
+
+tm_utils.sys_exit = _no_exit
+
+Stat = collections.namedtuple('Stat', 'mzxid version')
+Event = collections.namedtuple('Event', 'type path')
+
+
+class _Handler:
+    @staticmethod
+    def lock_object():
+        return threading.RLock()
+
+    @staticmethod
+    def sleep_func(_seconds):
+        return None
+
+    @staticmethod
+    def spawn(func, *args, **kwargs):
+        return func(*args, **kwargs)
+
+
+class TinyZk:
+    """Just enough of a kazoo client for _run_sync: data nodes with one-shot
+    data watches, ChildrenWatch decorators that call back at registration
+    (as kazoo does) and whenever the harness delivers a children event."""
+    handler = _Handler
+
+    def __init__(self, world):
+        self.world = world
+        self.nodes = {APPMON: (None, Stat(0, 0))}
+        self.zxid = 0
+        self.child_cb = {}
+        self.data_w = {}
+
+    def add_listener(self, _l):
+        pass
+
+    def remove_listener(self, _l):
+        pass
+
+    def children(self, path):
+        if path == APPMON:
+            pre = APPMON + '/'
+            return sorted(p[len(pre):] for p in self.nodes if p.startswith(pre))
+        if path == SCHEDULED:
+            return self.world.children('sorted')
+        raise kazoo.exceptions.NoNodeError(path)
+
+    def ChildrenWatch(self, path):  # pylint: disable=invalid-name
+        def _decorator(func):
+            self.child_cb.setdefault(path, []).append(func)
+            func(self.children(path))
+            return func
+        return _decorator
+
+    def get(self, path, watch=None):
+        if path not in self.nodes:
+            raise kazoo.exceptions.NoNodeError(path)
+        if watch is not None:
+            self.data_w.setdefault(path, []).append(watch)
+        return self.nodes[path]
+
+    def write(self, path, data):
+        self.zxid += 1
+        old = self.nodes.get(path)
+        self.nodes[path] = (data, Stat(self.zxid,
+                                       old[1].version + 1 if old else 0))
+
+    def fire_data(self, path, kind):
+        watchers = self.data_w.pop(path, [])
+        for w in watchers:
+            w(Event(kind, path))
+
+    def fire_children(self, path, children):
+        for func in list(self.child_cb.get(path, [])):
+            func(children)
 
 EPS = 1e-9
 ANSWERS = ('ok', '404', '400', 'val', 'boom')
@@ -51,7 +161,9 @@ def _fake_post(api, url, payload=None, headers=None, **_kw):
 
 
 def _fake_zk_update(zkclient, path, data, **_kw):
-    _CUR['world'].zk_written.append(copy.deepcopy(data))
+    w = _CUR['world']
+    w.zk_written.append(copy.deepcopy(data))
+    w.zk.write(path, json.dumps(data).encode())
 
 
 am.restclient.post = _fake_post
@@ -79,6 +191,10 @@ def units(x, count):
     return int(round(x * 1800.0 / count))
 
 
+class HarnessGlue(Exception):
+    pass
+
+
 class MonWorld:
     def __init__(self, cfg):
         self.cfg = cfg
@@ -86,21 +202,19 @@ class MonWorld:
         self.k = 0
         self.viol = []
         self.stats = collections.Counter()
-        self.state = {
-            'scheduled': collections.defaultdict(list),
-            'monitors': {},
-            'suspended': {},
-        }
         self.defs = {}          # monitor nodes in ZK: name -> (count, policy)
         self.policy = {}        # policy a name is (re)created with
-        self.inst = {n: [] for n in cfg['names']}
+        self.inst = {n: [] for n in cfg['names']}   # creation (= age) order
         self.seq = 0
-        self.last_waited = {}
         self.zk_written = []
         self.alerts = 0
         self.ref = {}           # name -> {'B': tokens, 't': time, 'c': count}
         self.calls = []
         self.answers = ('ok',)
+        self.zk = TinyZk(self)
+        self._enter()
+        self._boot()
+        self._leave()
 
     # -- clock ------------------------------------------------------------
     def _enter(self):
@@ -110,32 +224,48 @@ class MonWorld:
     def _leave(self):
         self.L, self.k = CLOCK.L, CLOCK.k
 
-    # -- mirrored glue of _run_sync -----------------------------------------
-    def _scheduled_watch(self):
-        children = [i for lst in self.inst.values() for i in lst]
-        scheduled = sorted(children)
-        grouped = collections.defaultdict(
-            list,
-            {k: list(v) for k, v in itertools.groupby(
-                scheduled, lambda n: n.rpartition('#')[0])})
-        self.state['scheduled'] = grouped
+    # -- driving the real glue of _run_sync -----------------------------------
+    def _boot(self):
+        """Run the real _run_sync once: it registers its nested watch
+        callbacks on the tiny ZooKeeper, reads last_waited through masterapi
+        and calls reevaluate - which, for this one call, only hands the
+        closure's state to the harness."""
+        got = {}
 
-    def _monitor_data_watch(self, name, count, policy):
-        import time
-        self.state['monitors'][name] = {
-            'count': count,
-            'available': 2.0 * count,
-            'last_update': time.time(),
-            'policy': policy,
-            'rate': (2.0 * count / am._INTERVAL),
-        }
-        t = self.state['monitors'][name]['last_update']
-        self.ref[name] = {'B': 2.0 * count, 't': t, 'c': count}
+        def _capture(api_url, alert_f, state, zkclient, last_waited):
+            got['state'] = state
+            got['last_waited'] = last_waited
+            return last_waited
 
-    def _appmonitors_watch(self):
-        for name in set(self.state['monitors']) - set(self.defs):
-            self.state['monitors'].pop(name, None)
-            self.ref.pop(name, None)
+        self.zk.child_cb = {}
+        self.zk.data_w = {}
+        am.context = types.SimpleNamespace(GLOBAL=types.SimpleNamespace(
+            zk=types.SimpleNamespace(conn=self.zk), cell='cell'))
+        am.reevaluate = _capture
+        try:
+            am._run_sync('http://cellapi', '/nonexistent/alerts', True)
+        finally:
+            am.reevaluate = _REAL_REEVALUATE
+        self.state = got['state']
+        self.last_waited = got['last_waited']
+        for name, (count, _policy) in self.defs.items():
+            self._reset_ref(name, count)
+
+    def _reset_ref(self, name, count):
+        conf = self.state['monitors'].get(name)
+        if conf is None:
+            raise HarnessGlue('monitor %s not loaded by the watch' % name)
+        self.ref[name] = {'B': 2.0 * count, 't': conf['last_update'],
+                          'c': count}
+
+    def children(self, order):
+        """Children of /scheduled as ZooKeeper might return them."""
+        out = sorted(i for lst in self.inst.values() for i in lst)
+        if order == 'reversed':
+            out.reverse()
+        elif order == 'interleaved':
+            out = out[:1] + out[1:][::-1]     # e.g. #1, #9, #3
+        return out
 
     # -- events -------------------------------------------------------------
     def apply(self, ev):
@@ -146,13 +276,29 @@ class MonWorld:
             self._leave()
 
     def _ev_mon(self, name, count, policy):
+        data = {'count': count}
+        if policy is not None:
+            data['policy'] = policy
+        path = z.path.appmonitor(name)
+        existed = name in self.defs
         self.defs[name] = (count, policy)
         self.policy[name] = policy
-        self._monitor_data_watch(name, count, policy)
+        self.zk.write(path, json.dumps(data).encode())
+        if existed:
+            # masterapi.update_appmonitor: data watch fires
+            self.zk.fire_data(path, 'CHANGED')
+        else:
+            # new node: the children watch adds the data watch, which loads it
+            self.zk.fire_children(APPMON, self.zk.children(APPMON))
+        self._reset_ref(name, count)
 
     def _ev_del(self, name):
+        path = z.path.appmonitor(name)
         del self.defs[name]
-        self._appmonitors_watch()
+        del self.zk.nodes[path]
+        self.zk.fire_data(path, 'DELETED')
+        self.zk.fire_children(APPMON, self.zk.children(APPMON))
+        self.ref.pop(name, None)
 
     def _ev_tick(self, secs):
         CLOCK.advance(secs)
@@ -172,15 +318,11 @@ class MonWorld:
         check_converged(self)
 
     def _ev_restart(self):
-        """The monitor process restarts: in-memory state is rebuilt from ZK
-        the way _run_sync does, last_waited is what was last written."""
-        self.state = {'scheduled': collections.defaultdict(list),
-                      'monitors': {}, 'suspended': {}}
+        """The monitor process restarts: the real _run_sync start-up runs again
+        on the same ZooKeeper content (fresh closure state, last_waited read
+        back through masterapi from what was last written)."""
         self.ref = {}
-        for name, (count, policy) in self.defs.items():
-            self._monitor_data_watch(name, count, policy)
-        self.last_waited = copy.deepcopy(self.zk_written[-1]) \
-            if self.zk_written else {}
+        self._boot()
 
     def on_post(self, url, payload):
         idx = len(self.calls)
@@ -192,15 +334,23 @@ class MonWorld:
     def _alert(self, *_a, **_kw):
         self.alerts += 1
 
-    def _ev_eval(self, *answers):
-        self._scheduled_watch()
+    def _ev_eval_r(self, *answers):
+        self._ev_eval(*answers, order='reversed')
+
+    def _ev_eval_x(self, *answers):
+        self._ev_eval(*answers, order='interleaved')
+
+    def _ev_eval(self, *answers, order='sorted'):
+        # ZooKeeper delivers the children of /scheduled to the real watch
+        self.zk.fire_children(SCHEDULED, self.children(order))
         self.calls = []
         self.answers = answers
         now = BASE + CLOCK.L + (CLOCK.k + 1) * TAU   # what reevaluate reads
         pre_susp = dict(self.state['suspended'])
         pre_inst = {n: list(v) for n, v in self.inst.items()}
-        self.last_waited = am.reevaluate(
-            'http://cellapi', self._alert, self.state, None, self.last_waited)
+        self.last_waited = _REAL_REEVALUATE(
+            'http://cellapi', self._alert, self.state, self.zk,
+            self.last_waited)
         self.stats['evals'] += 1
         self._judge(now, pre_susp, pre_inst)
 
@@ -215,11 +365,16 @@ class MonWorld:
             url = c['url']
             if url == '/instance/_bulk/delete':
                 ids = list(c['payload']['instances'])
+                if not ids:
+                    # an empty bulk delete removes nothing; a surplus left
+                    # standing is reported as surplus-not-deleted below
+                    self.stats['empty_delete_requests'] += 1
+                    continue
                 apps = {i.rpartition('#')[0] for i in ids}
                 if len(apps) > 1:
                     self._v('delete-mixes-applications', 'reevaluate/scale-down',
                             request=c)
-                for app in apps or {''}:
+                for app in apps:
                     deletes[app].append(
                         ([i for i in ids if i.rpartition('#')[0] == app],
                          c['answer']))
@@ -335,6 +490,13 @@ class MonWorld:
     def enabled(self):
         cfg = self.cfg
         evs = [('eval',) + tuple(a) for a in cfg['answers']]
+        if any(len(v) > 1 for v in self.inst.values()):
+            # the order in which ZooKeeper lists /scheduled can only matter
+            # when some application has two instances
+            for kind, order in (('eval_r', 'reversed'), ('eval_x', 'interleaved')):
+                if order in cfg.get('orders', ()):
+                    evs += [(kind,) + tuple(a)
+                            for a in cfg.get('order_answers', cfg['answers'])]
         evs += [('tick', s) for s in cfg['ticks']]
         for name in cfg['names']:
             n = len(self.inst[name])
